@@ -409,9 +409,17 @@ func WriteTargets(info *types.Info, lhs ast.Expr, out map[string]bool) {
 		}
 	case *ast.IndexExpr:
 		out["elem:"+typeStr(info.TypeOf(x.X))] = true
-		// the container itself, if it is a field
+		// the container itself, if it is a field: an element-level write ("Owner.Field[]"), which
+		// invalidates facts about the container's contents but not its nil-ness
 		if sel, ok := ast.Unparen(x.X).(*ast.SelectorExpr); ok {
-			WriteTargets(info, sel, out)
+			tmp := map[string]bool{}
+			WriteTargets(info, sel, tmp)
+			for k := range tmp {
+				if strings.HasSuffix(k, ".*") {
+					continue
+				}
+				out[k+"[]"] = true
+			}
 		}
 	case *ast.StarExpr:
 		pt := info.TypeOf(x.X)
@@ -761,6 +769,7 @@ func modOwners(mod map[string]bool) []string {
 		if strings.HasPrefix(w, "elem:") || strings.HasPrefix(w, "deref:") || strings.HasPrefix(w, "global:") {
 			continue
 		}
+		w = strings.TrimSuffix(w, "[]")
 		if i := strings.LastIndex(w, "."); i > 0 {
 			out = append(out, w[:i])
 		}
@@ -781,6 +790,13 @@ func (s *Summaries) AtomKilledBy(a *Atom, mod map[string]bool, addrTaken map[typ
 			if len(t.A) == 1 {
 				o := OwnerName(t.A[0].Typ)
 				if mod[o+"."+t.S] || mod[o+".*"] {
+					return true
+				}
+				if mod[o+"."+t.S+"[]"] {
+					// element-level write: the nil-ness of the container is unaffected
+					if a.Op == "eq" && ((a.L == t && a.R.K == 'n') || (a.R == t && a.L.K == 'n')) {
+						return false
+					}
 					return true
 				}
 			}
@@ -813,7 +829,7 @@ func (s *Summaries) AtomKilledBy(a *Atom, mod map[string]bool, addrTaken map[typ
 			name := strings.TrimSuffix(t.S, "...")
 			if f := s.ByName[name]; f != nil {
 				for r := range s.ReadOf(f) {
-					if mod[r] {
+					if mod[r] || mod[r+"[]"] {
 						return true
 					}
 					if i := strings.LastIndex(r, "."); i > 0 && mod[r[:i]+".*"] {
